@@ -17,14 +17,14 @@ FAULTS = [
     "dup-intermediate-const", "dup-intermediate-samedeps", "dup-intermediate-otherdeps", "dup-derivative",
     "dup-state", "dup-parameter", "clash-state-parameter", "clash-state-intermediate", "clash-parameter-intermediate",
     "missing-derivative", "orphan-derivative-no-state", "orphan-derivative-other-component", "undefined-symbol",
-    "cycle-2", "cycle-self", "cycle-long", "cycle-through-derivative",
+    "cycle-2", "cycle-self", "cycle-long", "cycle-through-derivative", "undefined-symbol-by-deletion",
 ]
 RULE = (
-    "a well-formed model from vlib.modelgen + exactly one well-formedness fault drawn from 17 classes (duplicate "
+    "a well-formed model from vlib.modelgen + exactly one well-formedness fault drawn from 18 classes (duplicate "
     "intermediate: constant vs constant / same dependencies / other dependencies; duplicate derivative, state, "
     "parameter; kind clashes state-parameter, state-intermediate, parameter-intermediate with equal or "
     "different values; missing derivative; orphan derivative without state / with the state in another "
-    "component; undefined symbol; 2-cycle, self-cycle, long cycle, cycle through a derivative name) at a drawn "
+    "component; undefined symbol (a new name, or a referenced definition deleted); 2-cycle, self-cycle, long cycle, cycle through a derivative name) at a drawn "
     "site, component and textual position. For 'differing' duplicates the two right-hand sides evaluate "
     "differently at a reference point. Oracle: an exception must surface no later than gotran2py.get_code and "
     "gotran2c.get_code. Non-trivial = every case (each is an ill-formed text); distinct by sha1 of the text."
@@ -138,6 +138,19 @@ def inject(draw, model, fault):
         a = draw(st.sampled_from(m["assigns"]))
         a["expr"] = ["bin", draw(st.sampled_from(["+", "*"])), a["expr"], ["var", "undefined_zz"]]
         return m, "undefined_zz is never defined"
+    if fault == "undefined-symbol-by-deletion":
+        # the declaration of a referenced parameter / the definition of a referenced intermediate is
+        # deleted: every remaining line is a line of the (loadable) base model
+        used = set()
+        for a in m["assigns"]:
+            used |= X.variables(a["expr"])
+        cands = [("params", p["name"]) for p in m["params"] if p["name"] in used]
+        cands += [("assigns", a["name"]) for a in m["assigns"] if a["name"] in used and not X.is_deriv(m, a["name"])]
+        if not cands:
+            return None
+        key, name = draw(st.sampled_from(cands))
+        m[key] = [x for x in m[key] if x["name"] != name]
+        return m, f"the definition of {name} is deleted, its uses stay"
     if fault.startswith("cycle"):
         c0 = list(draw(st.sampled_from(comps)))
         if fault == "cycle-self":
@@ -234,7 +247,7 @@ def check_case(case):
 
 
 CLAIM = {
-    "text": "Fault-injection exploration: hundreds to thousands of ill-formed texts, each a generated well-formed model plus exactly one fault from 17 classes at a drawn site / component / position; every one must raise no later than Python and C code generation. No absence claim beyond the enumerated fault classes.",
+    "text": "Fault-injection exploration: hundreds to thousands of ill-formed texts, each a generated well-formed model plus exactly one fault from 18 classes at a drawn site / component / position; every one must raise no later than Python and C code generation. No absence claim beyond the enumerated fault classes.",
     "note": "Trusted: the injector (each class is ill-formed by construction; differing duplicates are confirmed to evaluate differently by vlib/refsem.py).",
     "technique": "property-based fault injection (Hypothesis): generated well-formed model + one injected fault, oracle = must raise",
 }
